@@ -75,7 +75,7 @@ def slim(o):
 
 
 def generate(rng, tier):
-    n = 700 if tier == "quick" else 30000
+    n = 2500 if tier == "quick" else 30000
     for i in range(n):
         yield {"fam": "history", "seed": rng.randrange(1 << 30), "nsteps": 12 if tier == "quick" or i % 3 else 40}
 
